@@ -192,6 +192,19 @@ pub fn instrument(stmts: &[Stmt], names: &[&str]) -> Vec<Stmt> {
                 body: instrument_body(body, names),
                 else_: else_.as_ref().map(|e| instrument_body(e, names)),
             },
+            Stmt::TableRow { var, src, cols, limit, offset, body } => Stmt::TableRow {
+                var: var.clone(),
+                src: src.clone(),
+                cols: cols.clone(),
+                limit: limit.clone(),
+                offset: offset.clone(),
+                body: instrument_body(body, names),
+            },
+            Stmt::Case { target, whens, else_ } => Stmt::Case {
+                target: target.clone(),
+                whens: whens.iter().map(|(v, o, b)| (v.clone(), *o, instrument_body(b, names))).collect(),
+                else_: else_.as_ref().map(|e| instrument_body(e, names)),
+            },
             other => other.clone(),
         };
         out.push(st2);
